@@ -244,6 +244,9 @@ func (e *Engine) spawn(p *Path, cc *ssa.CallCommon, args []Value, fr *Frame, in 
 	if e.Race != nil {
 		e.Race.Fork(p, parent.Pid, pid)
 	}
+	if e.SpawnHook != nil {
+		e.SpawnHook(p, calleeName(cc))
+	}
 	// eager: run the child's initial local segment inside this path
 	p.Suspended = append(p.Suspended, p.Cur)
 	p.Cur = &Ctx{Pid: pid, Frames: []*Frame{nf}}
